@@ -12,7 +12,7 @@
    sign choices realise the large-arc / sweep flags (needs cos/sin of atan2 and the sign analysis
    of the cross product). *)
 From Coq Require Import ZArith Reals Lra List Bool String.
-From Pico Require Import Num G_geom G_transform G_arc Arc E1_affine E4_bezier E4_arc.
+From Pico Require Import Num G_geom G_transform G_arc Arc E1_affine E4_bezier E4_arc E4_center.
 Import ListNotations.
 Local Open Scope R_scope.
 
@@ -98,6 +98,21 @@ Theorem C12_coincident_nothing start rx ry rot large sweep endp :
   Point_eqb ROps endp start = true ->
   arc_to_cubic RMath start rx ry rot large sweep endp = Ok [].
 Proof. exact (coincident_endpoints_give_nothing start rx ry rot large sweep endp). Qed.
+
+(* the centre computed in normalised coordinates is mapped back by the exact inverse of the normalising map, for all non-zero
+   radii and every rotation - no determinant threshold (fix: Affine2D.inverse() called scale(1/rx,1/ry) degenerate for rx*ry >= ~4.5e15) *)
+Theorem C12_centre_mapped_back_by_the_exact_inverse (rx ry angle : R) (p : @Point ROps) :
+  rx <> 0 -> ry <> 0 ->
+  Affine2D_map_point ROps (back_map rx ry angle) (Affine2D_map_point ROps (norm_map rx ry angle) p) = p.
+Proof. exact (back_map_inverts rx ry angle p). Qed.
+
+Theorem C12_centre_is_back_mapped (self : @EllipticalArc ROps) cp :
+  EllipticalArc_end_to_center_parametrization ROps RMath self = Ok cp ->
+  exists q, CenterParametrization_center_point cp =
+            Affine2D_map_point ROps (back_map (EllipticalArc_rx self) (EllipticalArc_ry self)
+                                              (EllipticalArc_rotation self * (PI / 180))) q.
+Proof. exact (center_is_back_mapped self cp). Qed.
+Print Assumptions C12_centre_is_back_mapped.
 
 (* non-vacuity: a quarter-turn segment meets the angle premise *)
 Example C12_nonvacuous : Rabs (PI / 2) <= seg_angle_max.
